@@ -25,6 +25,8 @@ META = {
 
 META['explanation'] += ' ' + 'R9 covers None items and positions a list refuses (TypeError, nothing booked). R11: enum coded vectors book the width they write (shared with C10.R3).'
 
+META['explanation'] += ' ' + 'R5 follows the helper methods compose calls. R7 also decides get_item_size per kind of item it distinguishes, against the composer layout of that kind. R12: state a vector class keeps next to its item list is rewritten by every method that changes the list.'
+
 MUTATING_CALLS = {'append', 'insert', 'extend', 'pop', 'remove', 'clear', 'sort', 'reverse', '__setitem__', '__delitem__'}
 SEQ_METHODS = {'__delitem__', '__setitem__', 'insert', 'append', 'extend', 'pop', 'remove', 'clear', 'reverse',
                '__iadd__', 'sort'}
